@@ -5,6 +5,7 @@ package hx
 import (
 	"math"
 
+	"github.com/goghcrow/yae/parser/ast"
 	"github.com/goghcrow/yae/types"
 	"github.com/goghcrow/yae/val"
 	"github.com/goghcrow/yae/zzverif/sv"
@@ -21,9 +22,35 @@ func numList(name string, n int) (*val.Val, []float64) {
 	return l.Vl(), xs
 }
 
-// compileRun: front end once, then the selector-chosen back end.
+type front struct {
+	expr ast.Expr
+	ty   *types.Type
+	cls  string
+}
+
+// Eng is the shared engine with the built-ins registered (built once per
+// worker; every path's changes to it are rolled back).
+func Eng() *Engine {
+	return sv.Setup("engine", func() interface{} { return NewEngine() }).(*Engine)
+}
+
+// FrontOnce runs the front end for a concrete source once per worker. It
+// must be called before the path builds any value.
+func FrontOnce(e *Engine, src string, tys map[string]*types.Type, names []string) (ast.Expr, *types.Type, string) {
+	f := sv.Setup("front:"+src, func() interface{} {
+		expr, ty, cls := e.Front(src, tys, names)
+		return &front{expr, ty, cls}
+	}).(*front)
+	return f.expr, f.ty, f.cls
+}
+
+// compileRun: front end, then the selector-chosen back end.
 func compileRun(e *Engine, src string, tys map[string]*types.Type, vals map[string]*val.Val, names []string) (*val.Val, *types.Type, string) {
 	expr, ty, cls := e.Front(src, tys, names)
+	return backendRun(e, expr, ty, cls, vals, names)
+}
+
+func backendRun(e *Engine, expr ast.Expr, ty *types.Type, cls string, vals map[string]*val.Val, names []string) (*val.Val, *types.Type, string) {
 	sv.Assert("accepted", cls == "ok")
 	b := sv.Choice("backend", NBackends)
 	var res *val.Val
@@ -41,7 +68,7 @@ func compileRun(e *Engine, src string, tys map[string]*types.Type, vals map[stri
 // H02_subscript: xs[i] yields xs[trunc(i)] exactly when 0 <= trunc(i) < len
 // and otherwise stops with the out-of-range failure; never an internal fault.
 func H02_subscript() {
-	e := NewEngine()
+	e := Eng()
 	n := sv.Choice("len", 4)
 	xs, elems := numList("xs", n)
 	i := sv.Float64("i")
@@ -63,4 +90,127 @@ func H02_subscript() {
 		sv.Reach("out-of-range")
 		sv.Assert("out-of-range-fails", IsOutOfRange(class))
 	}
+}
+
+func thoroughExtra() int {
+	if sv.Thorough() {
+		return 1
+	}
+	return 0
+}
+
+func finiteSafe(x float64) bool {
+	return sv.And(x == x, x > -9007199254740992, x < 9007199254740992)
+}
+
+// H02_mapsel: m[key] yields the entry whose key equals key and otherwise
+// stops with the undefined-key failure.
+func H02_mapsel() {
+	e := Eng()
+	n := sv.Choice("len", 2+thoroughExtra())
+	mt := types.Map(types.Num, types.Num)
+	m := val.Map(mt.Map()).Map()
+	ks := make([]float64, n)
+	vs := make([]float64, n)
+	key := sv.Float64("key")
+	sv.Assume(finiteSafe(key))
+	for i := 0; i < n; i++ {
+		ks[i] = sv.Float64("k" + itoa(i))
+		vs[i] = sv.Float64("v" + itoa(i))
+		sv.Assume(finiteSafe(ks[i]))
+		// keys are identical or clearly apart (C18's precondition)
+		sv.Assume(sv.Or(sv.Same(ks[i], key), ks[i]-key > 1, key-ks[i] > 1))
+		for j := 0; j < i; j++ {
+			sv.Assume(sv.Or(sv.Same(ks[i], ks[j]), ks[i]-ks[j] > 1, ks[j]-ks[i] > 1))
+		}
+		m.Put(val.Num(ks[i]), val.Num(vs[i]))
+	}
+	tys := map[string]*types.Type{"m": mt, "key": types.Num}
+	vals := map[string]*val.Val{"m": m.Vl(), "key": val.Num(key)}
+	res, _, class := compileRun(e, "m[key]", tys, vals, []string{"m", "key"})
+	sv.Assert("no-internal-fault", !InternalFault(class))
+	present := false
+	want := 0.0
+	for i := 0; i < n; i++ {
+		hit := sv.Same(ks[i], key)
+		present = sv.Or(present, hit)
+		want = sv.IteF(hit, vs[i], want)
+	}
+	if present {
+		sv.Reach("present")
+		sv.Assert("present-yields-value", class == "ok")
+		if class == "ok" {
+			sv.Assert("value-is-entry", res != nil && res.Type == types.Num && sv.Same(res.Num().V, want))
+		}
+	} else {
+		sv.Reach("absent")
+		sv.Assert("absent-fails", IsUndefinedKey(class))
+	}
+}
+
+// H02_mod: a % b fails exactly when the integer divisor is zero.
+func H02_mod() {
+	e := Eng()
+	a, b := sv.Float64("a"), sv.Float64("b")
+	tys := map[string]*types.Type{"a": types.Num, "b": types.Num}
+	vals := map[string]*val.Val{"a": val.Num(a), "b": val.Num(b)}
+	res, _, class := compileRun(e, "a % b", tys, vals, []string{"a", "b"})
+	sv.Assert("no-internal-fault", !InternalFault(class))
+	if int64(b) == 0 {
+		sv.Reach("zero")
+		sv.Assert("zero-divisor-fails", IsDivide(class))
+	} else {
+		sv.Reach("nonzero")
+		sv.Assert("nonzero-divisor-yields-value", class == "ok")
+		if class == "ok" {
+			sv.Assert("value", res != nil && res.Type == types.Num && sv.Same(res.Num().V, float64(int64(a)%int64(b))))
+		}
+	}
+}
+
+type totalProg struct {
+	src   string
+	names []string
+	tys   []*types.Type
+}
+
+var totalProgs = []totalProg{
+	{"get(xs, i, d)", []string{"xs", "i", "d"}, []*types.Type{types.List(types.Num), types.Num, types.Num}},
+	{"get(m, k, d)", []string{"m", "k", "d"}, []*types.Type{types.Map(types.Str, types.Num), types.Str, types.Num}},
+	{"get(n, k, d)", []string{"n", "k", "d"}, []*types.Type{types.Map(types.Num, types.Str), types.Num, types.Str}},
+	{"get(o, d)", []string{"o", "d"}, []*types.Type{types.Maybe(types.Num), types.Num}},
+	{"isset(m, k)", []string{"m", "k"}, []*types.Type{types.Map(types.Str, types.Num), types.Str}},
+	{"isset(n, k)", []string{"n", "k"}, []*types.Type{types.Map(types.Num, types.Str), types.Num}},
+	{"len(xs) + len(s) + len(m)", []string{"xs", "s", "m"}, []*types.Type{types.List(types.Num), types.Str, types.Map(types.Str, types.Num)}},
+	{"string(a) + string(xs) + string(p)", []string{"a", "xs", "p"}, []*types.Type{types.Num, types.List(types.Num), TObjAB}},
+	{"string(m) + string(o) + string(t) + string(c)", []string{"m", "o", "t", "c"}, []*types.Type{types.Map(types.Str, types.Num), types.Maybe(types.Num), types.Time, types.Bool}},
+	{"[a < b, a <= b, a > b, a >= b, a == b, a != b]", []string{"a", "b"}, []*types.Type{types.Num, types.Num}},
+	{"[a + b, a - b, a * b, a / b, -a, +a, a ^ b]", []string{"a", "b"}, []*types.Type{types.Num, types.Num}},
+	{"[abs(a), ceil(a), floor(a), round(a), max(a, b), min(a, b), max(xs), min(xs)]", []string{"a", "b", "xs"}, []*types.Type{types.Num, types.Num, types.List(types.Num)}},
+	{"[s == u, s != u, t == v, t != v, t < v, t <= v, t > v, t >= v, c == d, c != d, !c, c && d, c || d]", []string{"s", "u", "t", "v", "c", "d"}, []*types.Type{types.Str, types.Str, types.Time, types.Time, types.Bool, types.Bool}},
+	{"[xs == ys, xs != ys, m == n, m != n]", []string{"xs", "ys", "m", "n"}, []*types.Type{types.List(types.Num), types.List(types.Num), types.Map(types.Str, types.Num), types.Map(types.Str, types.Num)}},
+	{"[len(union(xs, ys)), len(intersect(xs, ys)), len(diff(xs, ys))]", []string{"xs", "ys"}, []*types.Type{types.List(types.Num), types.List(types.Num)}},
+	{"s + u", []string{"s", "u"}, []*types.Type{types.Str, types.Str}},
+	{"if(c, a, b) + (c ? a : b)", []string{"c", "a", "b"}, []*types.Type{types.Bool, types.Num, types.Num}},
+}
+
+// H02_total: total operations never fail, whatever their operands.
+func H02_total() {
+	e := Eng()
+	p := totalProgs[sv.Choice("prog", len(totalProgs))]
+	tys := map[string]*types.Type{}
+	for i, n := range p.names {
+		tys[n] = p.tys[i]
+	}
+	expr, ty, cls := FrontOnce(e, p.src, tys, p.names)
+	vals := map[string]*val.Val{}
+	for i, n := range p.names {
+		vals[n] = AnyVal(p.tys[i], n)
+	}
+	res, ty, class := backendRun(e, expr, ty, cls, vals, p.names)
+	sv.Assert("total", class == "ok")
+	if class == "ok" {
+		sv.Assert("well-typed-result", RefWellTyped(res, ty) == "")
+	}
+	sv.Reach("ran")
 }
